@@ -517,3 +517,23 @@ pub fn case_json(p: &Prepared, w: &WMap, debug: bool) -> J {
         "debug_symbols": debug,
     })
 }
+
+/// Corpus regression inputs that come with a witness file: (file name, program, witness values).
+pub fn corpus_with_witness() -> Vec<(String, String, simfony::WitnessValues)> {
+    let root = std::env::var("VERIF_ROOT").unwrap_or_else(|_| "/verif".into());
+    let mut v = vec![];
+    if let Ok(d) = std::fs::read_dir(format!("{root}/corpus")) {
+        let mut paths: Vec<_> = d.filter_map(|e| e.ok()).map(|e| e.path()).collect();
+        paths.sort();
+        for p in paths {
+            if p.extension().map_or(true, |e| e != "simf") {
+                continue;
+            }
+            let (Ok(text), Ok(wit)) = (std::fs::read_to_string(&p), std::fs::read_to_string(p.with_extension("wit"))) else { continue };
+            if let Ok(w) = serde_json::from_str::<simfony::WitnessValues>(&wit) {
+                v.push((p.file_name().map(|n| n.to_string_lossy().to_string()).unwrap_or_default(), text, w));
+            }
+        }
+    }
+    v
+}
